@@ -23,9 +23,11 @@ from harness import c09 as P
 
 common.use_repo_sources()
 
-RULE = ("eval: E x K prediction matrices, E,K in 1..7 (square and non-square), values in [0,1] and a few large, chain labellings with unequal "
-        "lengths, one chain, gaps; effects: 0..14 rows, arity 2/3, ids >= -1, each (sample, agent) measured 0..3 times alone with control in "
-        "any column, combinations with and without measured agents; cmse/space: real Screens (arity 1-2) and holders of 1..3 "
+RULE = ("eval: E x K prediction matrices, E,K in 1..7 (square and non-square; C-ordered, transposed and strided buffers), values in [0,1] and a "
+        "few large, chain labellings with unequal lengths, one chain, gaps, interleaved / alternating / descending / shuffled labels (not sorted "
+        "contiguous blocks); effects: 0..14 rows, arity 2/3, ids >= -1, each (sample, agent) measured 0..3 times alone with control in "
+        "any column, combinations with and without measured agents; cmse/space: real Screens (arity 1-2; half with a non-default encoding = permuted treatment and "
+        "sample ids, shuffled mapping rows, named control at a positive dose; half partially observed) and holders of 1..3 "
         "SparseDrugCombo / interaction samples. Non-trivial: eval with >=2 chains of unequal length and E != K; effects with a repeated "
         "single-agent measurement, control in both columns and a skipped combination.")
 
@@ -78,7 +80,7 @@ def gen_eval(rng, idx):
     val = (lambda: rng.uniform(-1e6, 1e6)) if big else (lambda: rng.random())
     preds = [[val() for _ in range(K)] for _ in range(E)]
     obs = [val() for _ in range(E)]
-    mode = rng.choice(["one", "equal", "unequal", "unequal", "gaps", "interleaved"])
+    mode = rng.choice(["one", "equal", "unequal", "unequal", "gaps", "interleaved", "alternating", "descending", "shuffled"])
     if mode == "one":
         chains = [rng.choice([0, 3])] * K
     elif mode == "equal":
@@ -89,20 +91,35 @@ def gen_eval(rng, idx):
         chains = sorted(rng.choice([0, 0, 0, 1, 2]) for _ in range(K))
     elif mode == "gaps":
         chains = sorted(rng.choice([2, 5, 5, 9]) for _ in range(K))
+    elif mode == "alternating":      # round-robin merge of the chains: 0,1,0,1,... / 0,1,2,0,1,2,...
+        c = rng.randint(2, 3)
+        chains = [i % c for i in range(K)]
+    elif mode == "descending":       # contiguous blocks, labels descending (also negative), lengths unequal
+        chains = sorted((rng.choice([-3, 0, 0, 0, 4, 4]) for _ in range(K)), reverse=True)
+    elif mode == "shuffled":         # unequal lengths, no block structure at all
+        chains = [rng.choice([7, 7, 7, 1, 1, 12, -2]) for _ in range(K)]
+        rng.shuffle(chains)
     else:
         chains = [rng.choice([0, 1, 1, 2]) for _ in range(K)]
     names = [rng.choice(S.NAME_POOL[1:]) for _ in range(E)]
+    layout = rng.choice(["c", "c", "t", "strided"])
     bad = None
     if rng.random() < 0.08:
         bad = rng.choice(["obs", "chains", "names"])
     return {"kind": "eval", "idx": idx, "preds": [[fb(x) for x in r] for r in preds], "obs": [fb(x) for x in obs], "chains": chains,
-            "names": names, "bad": bad, "E": E, "K": K, "mode": mode}
+            "names": names, "bad": bad, "E": E, "K": K, "mode": mode, "layout": layout}
 
 
 def run_eval(case, res, lines, tmp):
     from batchie.models.main import ModelEvaluation
     E, K = case["E"], case["K"]
     preds = np.array([[S.from_bits(b) for b in r] for r in case["preds"]], dtype=float).reshape(E, K)
+    if case.get("layout") == "t":            # Fortran-ordered (a transposed K x E buffer)
+        preds = np.ascontiguousarray(preds.T).T
+    elif case.get("layout") == "strided":    # a view into a larger buffer: neither C- nor F-contiguous
+        big = np.full((2 * E, 2 * K), 123.25, dtype=float)
+        big[::2, ::2] = preds
+        preds = big[::2, ::2]
     obs = np.array([S.from_bits(b) for b in case["obs"]], dtype=float)
     chains = np.array(case["chains"], dtype=int)
     names = np.array(case["names"], dtype=str)
@@ -170,8 +187,11 @@ def run_eval(case, res, lines, tmp):
                 res.fail("evaluation file does not reload unchanged", case,
                          {"names": [str(x) for x in ev2.sample_names][:5], "chains": [int(x) for x in ev2.chain_ids][:8]},
                          {"names": [str(x) for x in names][:5], "chains": [int(x) for x in chains][:8]}, signature="C20:reload")
-            elif fb(ev2.mse()) != fb(ev.mse()) or fb(ev2.mse_variance()) != fb(ev.mse_variance()) \
-                    or fb(ev2.inter_chain_mse_variance()) != fb(ev.inter_chain_mse_variance()):
+            elif not (close(float(ev2.mse()), got["mse"], vscale["mse"]) and close(float(ev2.mse_variance()), got["msevar"], vscale["msevar"])
+                      and close(float(ev2.inter_chain_mse_variance()), got["interchain"], vscale["interchain"])
+                      and all(close(float(a), b, pscale) for a, b in zip(ev2.mean_predictions, got["meanpred"]))):
+                # (tolerance, not bits: the reloaded matrix is C-ordered, the original may be a transposed / strided buffer,
+                #  and numpy's pairwise summation follows the memory order)
                 res.fail("metrics differ after reloading the evaluation file", case, float(ev2.mse()), float(ev.mse()), signature="C20:reload")
         except Exception as e:  # noqa
             res.fail("evaluation save/load raises", case, repr(e)[:200], "round trip", signature="C20:reload")
@@ -319,7 +339,7 @@ def run_effects(case, res, lines):
 
 def gen_model(rng, idx, kind_name):
     kind = "sdc" if rng.random() < 0.7 else "sdci"
-    n_s = rng.randint(1, 4)
+    n_s = rng.randint(1, 4) if (kind_name != "space" or rng.random() < 0.2) else rng.randint(2, 4)
     n_t = rng.randint(1, 4)
     arity = 2 if kind == "sdci" else rng.choice([1, 2, 2])
     raw = P.gen_raw(rng, arity, n_s, n_t, n_max=10)
@@ -538,6 +558,9 @@ def _run(ctx, res):
             res.evaluations += 1
             res.count("eval.chains.%s" % case["mode"])
             res.count("eval.square" if case["E"] == case["K"] else "eval.nonsquare")
+            res.count("eval.layout.%s" % case["layout"])
+            if case["chains"] != sorted(case["chains"]):
+                res.count("eval.chains.not_sorted_blocks")
             if case["bad"]:
                 res.count("eval.malformed")
             cl = sorted(case["chains"].count(c) for c in set(case["chains"]))
@@ -574,11 +597,15 @@ def _run(ctx, res):
         run_cmse(case, res, lines)
         res.evaluations += 1
         res.count("cmse.%s" % case["model"])
-    for i in range(ctx.scale(40, 1500, 300)):
+    for i in range(ctx.scale(80, 1500, 300)):
         case = gen_model(ctx.subrng("space", i), i, "space")
         run_space(case, res, lines)
         res.evaluations += 1
         res.count("space.%s.arity%d" % (case["model"], case["raw"]["arity"]))
+        if case["raw"].get("enc"):
+            res.count("space.nondefault_encoding")
+        if case["raw"].get("mask") is not None and not all(case["raw"]["mask"]):
+            res.count("space.partially_observed")
         if len(set(case["raw"]["snames"])) >= 2:
             res.nontrivial.add(("space", i))
     res.traces_validated = res.evaluations
